@@ -10,10 +10,14 @@ Open Scope N_scope.
 Record gate_out := mk_gate_out {
   go_code : N;          (* error returned to the protocol server (0 = nil) *)
   go_listed : N;        (* entries for this session in StatGroup(stream).StatSubs *)
-  go_wrote : bool }.    (* anything written to the subscriber's connection *)
+  go_wrote : bool;      (* anything written to the subscriber's connection *)
+  go_kicked : bool;     (* CtrlKickSession(stream, session id) afterwards reports success *)
+  go_closed : bool }.   (* ... and the session's connection has been closed by it *)
 
+(* Group.KickSession looks the id up among the attached sessions of its kind and
+   disposes the one it finds; a session that was never attached is not found *)
 Definition sm_on_new_http_sub (d : sa_result) : gate_out :=
   match d with
-  | SaOk => mk_gate_out 0 1 true
-  | r => mk_gate_out (sa_code r) 0 false
+  | SaOk => mk_gate_out 0 1 true true true
+  | r => mk_gate_out (sa_code r) 0 false false false
   end.
